@@ -165,7 +165,12 @@ fn stress(installers: usize, emitters: usize, iters: usize, base: u64) -> String
     else { bad.truncate(3); format!("stress FAIL {}", bad.join(" | ")) }
 }
 
+// only this property's own yield sites take part in the schedule: instrumented code of other
+// properties reached from here (e.g. Key::get_hash under a registry lock) must pass through
+fn own_site(site: u32) -> bool { (201..=205).contains(&site) }
+
 fn main() {
+    sched::set_site_filter(Some(own_site));
     let stdin = std::io::stdin();
     let stdout = std::io::stdout();
     let mut w = std::io::BufWriter::new(stdout.lock());
